@@ -841,7 +841,7 @@ def replay(path):
     return 1
 
 
-LEVEL_TEXT = ("Proof: 6 Coq theorems (closed under the global context) about list models of the path builders: with fixed product dates the "
+LEVEL_TEXT = ("Proof: 8 Coq theorems (closed under the global context) about list models of the path builders: with fixed product dates the "
               "jump part at each date is the sum of all increments of the intervals so far, each date-to-date increment uses that "
               "interval's variates only, the diffusion part is the running sum of the scaled normals (any number of dates/jumps); with "
               "jump times the times start at 0, end at the maturity and are strictly increasing, values are running sums and the last "
@@ -855,5 +855,5 @@ LEVEL_TEXT = ("Proof: 6 Coq theorems (closed under the global context) about lis
 LEVEL_NOTE = ("Trusted: Coq kernel + vm_compute; floats as rationals (dyadic scripts exact; sqrt of the steps fed as data, diffusion within 1e-12 "
               "when a sqrt is inexact); numpy insert/cumsum/diff/flatnonzero modelled by list functions and pinned by the correspondence; the "
               "randomness sources are scripted at nb_jump_dt / jump_times_from_nb_of_jumps / the state sampler / np.random.normal / "
-              "coupling_state. The model follows the tree with the fix for F-C15-3; F-C15-1, F-C15-2, F-C15-4 are recorded as known findings.")
+              "coupling_state. The model follows the tree with the fix for F-C15-3; F-C15-1, F-C15-2, F-C15-4, F-C15-5 (float rounding in build_finer_grid on non-dyadic inputs) are recorded as known findings, each accepted only through matches_known.")
 TECHNIQUE = "Coq proof (induction over interval/gap lists, an inductive refinement relation for build_finer_grid) on hand models + vm_compute correspondence through simulate_one_path with scripted variates"
